@@ -191,3 +191,49 @@ contract(FF, 'BinopFunction.__call__', props=('C15',), params={'self': 'self', '
          ensures=[('selector-of(callable-operands-called-once-with-the-callers-arguments,others-as-they-are)', binop_fn_post)],
          modifies=[], fields={'BinopFunction': {'selector': 'obj', 'a': 'obj', 'b': 'obj'}}, class_modules={'BinopFunction': FF},
          hooks={'call': h_call, 'builtin_first': fn_builtin}, native=False)
+
+
+# ---- composing: which object an operator expression builds --------------------------------------------------------------
+# s op x  -> BinopStream(op, s, stream(x))      x op s -> BinopStream(op, stream(x), s)      (the receiver keeps ITS side)
+# op s    -> UnopStream(op, s)                  f op x -> BinopFunction(op, f, x)            x op f -> BinopFunction(op, x, f)
+def cs_construct(eng, f, args, kwargs, st, node):
+    if f.k == 'class' and f.py in ('UnopStream', 'BinopStream', 'NaropStream', 'UnopFunction', 'BinopFunction', 'NaropFunction'):
+        r = V('obj', oid='composed', extra={'cls': f.py, 'args': tuple(args)})
+        st.trace.append(('composed', f.py, tuple(args), r))
+        return [(st, r)]
+    return None
+
+
+def cs_stream_pol(eng, selfv, args, kwargs, st, node):
+    return [(st, V('obj', oid='stream-of!%d' % next(eng.counter), extra={'stream_of': args[0]}))]
+
+
+def composed(cls, shape):
+    """shape: list of 'selector' | 'self' | 'other' | 'stream(other)'"""
+    def post(c):
+        cs = [e for e in c.trace if e[0] == 'composed']
+        if len(cs) != 1 or cs[0][1] != cls or c.resultv is not cs[0][3] or len(cs[0][2]) != len(shape):
+            return z3.BoolVal(False)
+        for want, got in zip(shape, cs[0][2]):
+            if want == 'selector' and got is not c._params['selector']:
+                return z3.BoolVal(False)
+            if want == 'self' and not (got.k == 'ref' and got.oid == 'self'):
+                return z3.BoolVal(False)
+            if want == 'other' and got is not c._params['other']:
+                return z3.BoolVal(False)
+            if want == 'stream(other)' and not (got.k == 'obj' and got.extra and got.extra.get('stream_of') is c._params['other']):
+                return z3.BoolVal(False)
+        return z3.BoolVal(True)
+    return post
+
+
+for F_, base, kinds in ((FS, 'Stream', {'un': 'UnopStream', 'bin': 'BinopStream', 'other': 'stream(other)'}),
+                        (FF, 'AbstractFunction', {'un': 'UnopFunction', 'bin': 'BinopFunction', 'other': 'other'})):
+    common = dict(modifies=[], fields={base: {}}, class_modules={base: F_}, hooks={'construct': cs_construct},
+                  policies={FS + '::stream': cs_stream_pol}, native=False)
+    contract(F_, base + '._compose_unop', props=('C15',), params={'self': 'self', 'selector': 'obj'},
+             ensures=[('op-s:the-receiver-under-the-selector', composed(kinds['un'], ['selector', 'self']))], **common)
+    contract(F_, base + '._compose_binop', props=('C15',), params={'self': 'self', 'selector': 'obj', 'other': 'obj'},
+             ensures=[('s-op-x:receiver-LEFT,the-other-operand-right', composed(kinds['bin'], ['selector', 'self', kinds['other']]))], **common)
+    contract(F_, base + '._rcompose_binop', props=('C15',), params={'self': 'self', 'selector': 'obj', 'other': 'obj'},
+             ensures=[('x-op-s:the-other-operand-LEFT,receiver-right', composed(kinds['bin'], ['selector', kinds['other'], 'self']))], **common)
